@@ -1,5 +1,5 @@
 (** C12: a parser can be reused: Reset with a new Buffer behaves like a fresh parser. *)
-From PegV Require Import Base.Tac Spec.Syntax Spec.Peg Model.Machine Model.Gen Proofs.Top Properties.Example.
+From PegV Require Import Base.Tac Spec.Syntax Spec.Peg Model.Machine Model.Gen Proofs.PegFacts Proofs.Forest Proofs.Top Properties.Example.
 
 (** Whatever state [st0] the parser object was left in by earlier inputs (token slice, memo table,
     maxToken, position) and a fresh object [st0'] give, after Reset, the same verdict, position,
@@ -15,6 +15,21 @@ Theorem C12_reuse_is_fresh :
       (b = false -> maxtok st1 = maxtok st2).
 Proof. exact c12_history_irrelevant. Qed.
 Print Assumptions C12_reuse_is_fresh.
+
+(** Integer width.  The generic parameter U types buffer offsets only (position, token begin/end;
+    since fix a74140a the token *index* is a uint32 of its own).  Every offset the parser reports is
+    at most the length of the input: the consumed prefix, both ends of every token, and both ends of
+    the error token.  Hence any instantiation whose U can hold len(input) represents them all, and the
+    results cannot depend on which one is chosen. *)
+Theorem C12_offsets_fit_the_input :
+  forall g ptx buf penv, good_grammar g -> good_buf buf -> good_switches g ->
+  forall memo inline n r st0 rr,
+    slot_ok g inline r -> peg_parse g ptx buf penv n r = Some rr ->
+    exists b st', machine g ptx buf penv memo inline n r st0 = Some (Ret b st') /\
+      (b = true -> pos st' <= length buf /\ Forall (inb 0 (length buf)) (live st')) /\
+      (b = false -> tok_ok (length buf) (maxtok st')).
+Proof. exact c12_offsets_fit. Qed.
+Print Assumptions C12_offsets_fit_the_input.
 
 (** non-vacuity: parse "abz" (fails, leaves stale tokens, memo entries and a maxToken), then "aby" *)
 Example C12_nonvacuous :
